@@ -26,10 +26,10 @@ def squeeze(text):
     return "".join(out)
 
 
-def read_items(src, form="free", ignore_comments=False, omp=False):
+def read_items(src, form="free", ignore_comments=False, omp=False, fmt=None):
     """Iterate a bare reader: list of (kind, squeezed text, label, name, first, last)."""
     from .. import fp
-    rd = fp.reader(src, ignore_comments=ignore_comments, omp=omp)
+    rd = fp.reader(src, ignore_comments=ignore_comments, omp=omp, fmt=fmt)
     mode = rd.format.mode
     out = []
     for it in rd:
@@ -244,7 +244,7 @@ def work_fixed_items(case):
         full = "\n".join(pre + lay["lines"] + post) + "\n"
         r = {}
         try:
-            mode, items = read_items(full)
+            mode, items = read_items(full, fmt=(False, False))
             r["mode"] = mode
             sh, n = len(pre), len(lay["lines"])
             r["items"] = [(k, t, lb, nm, f - sh, l - sh) for (k, t, lb, nm, f, l) in items if sh < f <= sh + n]
@@ -287,7 +287,7 @@ def check_fixed_items(chk, cases):
         chk.sample({"statement_set": c["set"], "fixed_form_layout": c["layouts"][len(c["layouts"]) // 2]["lines"]})
 
 
-def run_fixed(chk, tier, replay_set=None):
+def run_fixed(chk, tier, replay_set=None, amp_end=False):
     layouts.gen_tla(os.path.join(common.SPECS, "SourceForm_gen.tla"))
     sets = [s for s in layouts.SETS if replay_set is None or s[0] == replay_set]
     mb, mx, cc = (2, 1, "CC2") if tier == "quick" else (2, 1, "CC3")       # (thorough with 14 continuation characters and two extras ran out of memory)
@@ -300,7 +300,7 @@ def run_fixed(chk, tier, replay_set=None):
             mb, mx = (2, 2) if len(stmts) == 1 else (2, 1)
         cfg = "_FixedForm_%s_%s.cfg" % (name, tier)
         with open(os.path.join(common.SPECS, cfg), "w") as f:
-            f.write("SPECIFICATION Spec\nCONSTANTS\n  Stmts <- %s\n  MaxBreaks = %d\n  MaxExtras = %d\n  ContChars <- %s\nINVARIANT RoundTrip\nCONSTRAINT Dump\n" % (name, mb, mx, cc))
+            f.write("SPECIFICATION Spec\nCONSTANTS\n  Stmts <- %s\n  MaxBreaks = %d\n  MaxExtras = %d\n  ContChars <- %s\n  AmpEnd = %s\nINVARIANT RoundTrip\nCONSTRAINT Dump\n" % (name, mb, mx, cc, "TRUE" if amp_end else "FALSE"))
         jobs.append((name, cfg, "MCFixedForm.tla"))
     results = pmap(_tlc_form, jobs, chunksize=1, procs=4)
     cases = []
@@ -396,7 +396,8 @@ def run(prop, tier=None, replay=None):
         chk.phase("replay-statement-layouts")
     if prop == "C12" and (not replay or rform == "fixed"):
         # the same law in fixed form: every layout of FixedForm.tla, the reader's items against the layout's ground truth
-        check_fixed_items(chk, run_fixed(chk, tier, rset))
+        # (the reader is told the form, so a line may also end in & - inside a literal - which the detector would take for free form)
+        check_fixed_items(chk, run_fixed(chk, tier, rset, amp_end=True))
         chk.phase("replay-fixed-form-layouts")
     if prop == "C04" and not replay:
         program_layouts(chk, tier)
